@@ -522,6 +522,10 @@ def k_unique_id(E, tier):
         st.events.append(sym.Event("new_lower_hex", [v], o, len(st.pc)))
         return o
 
+    def m_thread_local(ex, st, c, a, d):
+        st.events.append(sym.Event("thread-local", a, None, len(st.pc)))
+        return ctx.fresh_value(d or "u64", "thread-local-value")
+
     def m_arguments(ex, st, c, a, d):
         o = sym.Opaque("Arguments", "fmtargs", ctx)
         st.events.append(sym.Event("Arguments::new", a, o, len(st.pc)))
@@ -533,6 +537,7 @@ def k_unique_id(E, tier):
         (r"<std::sync::MutexGuard<'_, u64> as Deref(Mut)?>::deref(_mut)?$", m_deref_guard),
         (r"<LazyLock<.*> as Deref>::deref$", m_static_deref),
         (r"Atomic(U64|::<u64>)::fetch_add$", m_fetch_add),
+        (r"LocalKey::<.*>::(with|try_with|get|set)(::<.*>)?$", m_thread_local),
         (r"Atomic(U64|::<u64>)::load$", m_atomic_load),
         (r"Atomic(U64|::<u64>)::store$", m_atomic_store),
         (r"Argument::<'_>::new_lower_hex::<u64>$", m_hex),
@@ -546,6 +551,10 @@ def k_unique_id(E, tier):
     panic_obligations(E, ctx, rec, paths, assume=notmax)
     for i, p in enumerate(paths):
         cellv = p.cells.get("cell")
+        if cellv is None and any(e.callee == "thread-local" for e in p.events):
+            rec.add("path %d: the counter is one per process (a thread_local! counter starts every thread from the same seed, so two threads return the same identifiers)" % i,
+                    {"verdict": "violated", "per_solver": {"structural": "LocalKey::with"}, "time_s": 0})
+            continue
         if cellv is None:
             rec.add("path %d: the call touches the process-wide counter (shape not recognised)" % i, {"verdict": "inconclusive", "per_solver": {"structural": "no counter access"}, "time_s": 0})
             continue
@@ -2693,6 +2702,11 @@ def k_lock_pairing(E, tier):
             else:
                 rec.add("@import arm: on all %d paths that emit a plain CSS import after a failed lookup, the URL is http://, https://, //, *.css or url()" % n_fb,
                         {"verdict": "holds" if not bad_fb else "violated", "per_solver": {"z3+cvc5": "pc implies the disjunction", "paths": str(bad_fb[:5])}, "time_s": 0})
+                tested = sorted({k_ for pr in preds.values() for k_ in pr if k_.startswith(("starts_with:", "ends_with:"))})
+                want_tests = ["ends_with:.css", "starts_with://", "starts_with:http://", "starts_with:https://"]
+                rec.add("@import arm: the fallback's literal URL tests are exactly starts_with http://, https://, // and ends_with .css (a shorter prefix such as `http` "
+                        "would turn a missing Sass file named http-helpers into a plain CSS import)",
+                        {"verdict": "holds" if tested == want_tests else "violated", "per_solver": {"structural": ", ".join(tested)}, "time_s": 0})
     rec.notes.append("one or two imported names per @import; parse, load_module, handle_body, do_use … are opaque calls whose Result forks into Ok and Err")
     return rec
 
@@ -3285,6 +3299,10 @@ def k_do_use_prefix(E, tier):
             fm = [e for e in seg if e.callee == "format"]
             al = [e for e in seg if e.callee in ("allow_fun", "allow_var")]
             df = [e for e in seg if e.callee in ("define_function", "define_mixin", "define")]
+            if len(al) == 1 and len(al[0].rargs) > 1 and al[0].rargs[1] is key:
+                # a recognised wrong wiring: show/hide lists of a prefixed @forward name the members *with* the prefix
+                bad.setdefault(kind, []).append("path %d: the filter is asked about the member's unprefixed name" % i)
+                continue
             if len(fm) != 1 or len(al) != 1:
                 bad.setdefault(kind, []).append("path %d: one prefixed name and one filter test per member (shape not recognised)" % i)
                 continue
@@ -6618,8 +6636,19 @@ def k_load_module(E, tier):
         gets = [e for e in p.events if e.callee == "get"]
         inits = [e for e in p.events if e.callee in ("init", "init-failed")]
         ins = [e for e in p.events if e.callee == "insert"]
-        if len(gets) != 1 or gets[0].rargs[1] is not path:
-            rec.add("path %d: the cache is looked up once under the given path (shape not recognised)" % i, {"verdict": "inconclusive", "per_solver": {}, "time_s": 0})
+        if len(gets) != 1:
+            rec.add("path %d: the cache is looked up once (shape not recognised)" % i, {"verdict": "inconclusive", "per_solver": {}, "time_s": 0})
+            continue
+        lookup_key = gets[0].rargs[1]
+        if lookup_key is not path:
+            # a key derived from the path: what matters for "executed once" is that the store below uses the very same key
+            if ins:
+                same = len(ins) == 1 and ins[0].rargs[1] is lookup_key
+                rec.add("path %d: the cache is asked under a key derived from the path, and the new module is stored under that very key (looked up under one key and "
+                        "stored under another, the module would be executed again by the next user)" % i,
+                        {"verdict": "holds" if same else "violated", "per_solver": {"structural": "lookup key %r, store key %r" % (lookup_key, ins[0].rargs[1])}, "time_s": 0})
+            rec.add("path %d: the cache key is the given path itself (a derived key: its normalisation is not modelled; shape not recognised)" % i,
+                    {"verdict": "inconclusive", "per_solver": {}, "time_s": 0})
             continue
         is_ok = isinstance(p.ret, sym.Agg) and p.ret.variant == "Ok"
         if not inits:
